@@ -29,6 +29,8 @@ def addBucket (c : Cell) (bid pid level : Nat) : M Cell := do
 /-- `Server(name, capacity, valid_until, traits, label)`; `parent.add_node(server)`. -/
 def addServer (c : Cell) (sid pid : Nat) (cap : Vec) (label traits : Nat) (validUntil : Int) : M Cell := do
   if nameTaken c sid then throw "assert node.name not in self.children_by_name"
+  -- MODEL-ONLY assertion, implied by the previous one as long as tree leaves = server table
+  if (c.srv? sid).isSome then throw "model-assert: server table and tree leaves agree"
   let s : Srv := { id := sid, init := cap, free := cap, apps := [], label := label, traits := traits,
                    validUntil := validUntil, state := .up, since := c.now, aff := [] }
   let t ← orAbort (Tree.attach (.leaf sid) c.tree pid) "add_server: no parent"
@@ -192,6 +194,15 @@ def step (c : Cell) : Op → M Cell
       pure (c.setApp { x with renew := b })
   | .tick now => pure { c with now := now }
   | .schedule qs ch => schedule c qs ch
+
+/-- Executable version of the operation guards `OpOk` (see InvCapOps.lean). -/
+def OpOkB (c : Cell) : Op → Bool
+  | .addServer sid _ cap _ _ _ =>
+    decide (0 ≤ cap.m) && decide (0 ≤ cap.c) && decide (0 ≤ cap.d) && c.apps.all (fun a => a.server != some sid)
+  | .addApp a =>
+    decide (0 ≤ a.demand.m) && decide (0 ≤ a.demand.c) && decide (0 ≤ a.demand.d) && a.server.isNone
+  | _ => true
+
 
 def runOps (c : Cell) : List Op → M Cell
   | [] => pure c
